@@ -41,7 +41,7 @@ for pid in props:
         na.append({"property_id": pid, "reason": spec.get("unclaimed", {}).get(pid, spec["unclaimed_default"])})
 m = {
     "version": 1,
-    "setup_cmd": "cd /verif && CARGO_NET_OFFLINE=true cargo build --offline --profile agv --workspace",
+    "setup_cmd": "cd /verif && CARGO_NET_OFFLINE=true cargo build --offline --profile agv " + " ".join("-p agv-" + c["property_id"].lower() for c in checks),
     "hooks": spec["hooks"],
     "engines": spec["engines"],
     "checks": checks,
